@@ -1233,12 +1233,29 @@ public:
                          DIdxSet* intVars = nullptr)
    {
 
-      spxifstream file(filename);
+      // with zlib support the stream reports a file that cannot be opened or decompressed by throwing
+      try
+      {
+         spxifstream file(filename);
 
-      if(!file)
+         if(!file)
+            return false;
+
+         return read(file, rowNames, colNames, intVars);
+      }
+
+#ifdef SOPLEX_WITH_ZLIB
+      catch(const strict_fstream::Exception&)
+      {
          return false;
+      }
 
-      return read(file, rowNames, colNames, intVars);
+#endif
+      catch(const std::ios_base::failure&)
+      {
+         clear();
+         return false;
+      }
    }
 
    /** Writes a file in LP format to \p out. If \p rowNames and \p colNames are \c NULL, default names are used for the
